@@ -2,7 +2,9 @@ import Std.Data.HashMap
 import Std.Data.HashSet
 import RegexVerif.Sexp
 import RegexVerif.Model.Class
+import RegexVerif.Model.ClassQuery
 import RegexVerif.Generated.Class
+import RegexVerif.Generated.ClassQuery
 
 namespace RegexVerif.Driver
 open RegexVerif Sexp
@@ -93,10 +95,88 @@ private def parseItem (e : Sexp) : Option Item :=
     | none => none
   | _ => none
 
+/-! ### sub-head `query`: the query functions of Model/ClassQuery.lean -/
+
+/-- interval rows `(oranges (id lo hi lo hi …) …)` as a table (built ONCE per request: a definition returning
+a function would be eta-expanded by the compiler and rebuild the table on every lookup) -/
+private def mkRangeTable (rest : List Sexp) : Std.HashMap Nat (Array (Nat × Nat)) :=
+  let rows := (lookup "oranges" rest).getD []
+  rows.foldl (fun m row =>
+    match row.nats? with
+    | some (id :: rs) => m.insert id (pairs rs).toArray
+    | _ => m) {}
+
+private def ivSearch (a : Array (Nat × Nat)) (ch : Nat) : Nat → Nat → Nat → Nat
+  | 0, lo, _ => lo
+  | fuel + 1, lo, hi =>
+    if lo < hi then
+      let mid := (lo + hi) / 2
+      if (a[mid]?.getD (0, 0)).2 < ch then ivSearch a ch fuel (mid + 1) hi else ivSearch a ch fuel lo mid
+    else lo
+
+/-- category oracle over the interval table: binary search for the first interval whose upper end is not below `ch` -/
+private def rangeOracle (tbl : Std.HashMap Nat (Array (Nat × Nat))) (id ch : Nat) : Bool :=
+  match tbl.get? id with
+  | some a =>
+    match a[ivSearch a ch 64 0 a.size]? with
+    | some r => decide (r.1 ≤ ch) && decide (ch ≤ r.2)
+    | none => false
+  | none => false
+
+private def mkNames (rest : List Sexp) : (Nat → List Nat) × (List Nat → Nat) :=
+  let rows := ((lookup "names" rest).getD []).filterMap (fun row =>
+    match row.nats? with
+    | some (id :: bs) => some (id, bs)
+    | _ => none)
+  (fun id => ((rows.find? (fun r => r.1 == id)).map (·.2)).getD [],
+   fun bs => ((rows.find? (fun r => r.2 == bs)).map (·.1)).getD 999999)
+
+/-- the constants of the source: category ids 0 = " ", 1 = "W", 2 = "Nd" (fixed by the harness) -/
+private def srcConsts : Consts :=
+  { space := 0, word := 1, nd := 2, ecmaSpace := RegexVerif.Generated.ecmaSpace, ecmaWord := RegexVerif.Generated.ecmaWord,
+    ecmaDigit := RegexVerif.Generated.ecmaDigit, whitespaceChars := RegexVerif.Generated.whitespaceChars }
+
+private def optNats : Option (List Nat) → Sexp
+  | none => atom "nil"
+  | some xs => ofNats xs
+
+private def item (name : String) (v : Sexp) : Sexp := list [atom name, v]
+
+private def queryUnary (tag : String) (cat : Nat → Nat → Bool) (isLetter : Nat → Bool)
+    (names : (Nat → List Nat) × (List Nat → Nat)) (maxChars nRanges : List Nat) (c : Class) : List Sexp :=
+  let h := Class.hash names.1 c
+  let caic := containsAsciiIgnoreCaseCharacter cat isLetter c
+  [ item (tag ++ ".sing") (ofBool c.isSingleton), item (tag ++ ".singinv") (ofBool c.isSingletonInverse),
+    item (tag ++ ".schar") (match c.singletonChar with | some x => ofNat x | none => atom "-"),
+    item (tag ++ ".merge") (ofBool c.isMergeable), item (tag ++ ".neg") (ofBool c.isNegated),
+    item (tag ++ ".sub") (ofBool c.hasSubtraction), item (tag ++ ".empty") (ofBool c.isEmpty),
+    item (tag ++ ".any") (ofBool c.isAnything), item (tag ++ ".eqself") (ofBool (c.equals c)) ] ++
+  maxChars.map (fun k => item (tag ++ ".gsc." ++ toString k) (optNats (getSetChars cat c k))) ++
+  nRanges.map (fun n => item (tag ++ ".gnr." ++ toString n) (optNats ((getIfNRanges c n).map unpairs))) ++
+  [ item (tag ++ ".gcats") (match getIfOnlyUnicodeCategories srcConsts c with
+      | none => atom "nil"
+      | some (cs, ng) => list [ofNats (uncat cs), ofBool ng]),
+    item (tag ++ ".small") (match isUnicodeCategoryOfSmallCharCount srcConsts c with
+      | none => atom "nil"
+      | some (chars, ng, d) => list [ofNats chars, ofBool ng, ofNat d]),
+    item (tag ++ ".caic") (list [ofBool caic.1, optNats caic.2]),
+    item (tag ++ ".hash") (ofNats h),
+    item (tag ++ ".rt") (renderClass (newCharSetRuntime names.2 h.length h)),
+    item (tag ++ ".copy") (renderClass c.copy) ]
+
+private def queryBinary (tag : String) (cat : Nat → Nat → Bool) (withEnum : Bool) (a b : Class) : List Sexp :=
+  [ item (tag ++ ".eq") (ofBool (a.equals b)), item (tag ++ ".eqig") (ofBool (Class.equalsGo a b true)),
+    item (tag ++ ".mo") (ofBool (mayOverlap cat srcConsts a b)),
+    item (tag ++ ".kd") (ofBool (knownDistinctSets srcConsts a b)) ] ++
+  (if withEnum then [item (tag ++ ".en") (ofBool (mayOverlapByEnumeration cat a b))] else [])
+
 /-- `(c16 mem <cls> (runes…) (oracle …))` → `(ok bALG bSLOW bFAST)`;
 `(c16 build neg hasSub (items…) (oracle …))` → `(flat …)`;
 `(c16 caseq (levels (neg (items…))…) (orbit (i e…)…) (oracle …))` → `(cls …)`;
-`(c16 neg (rs…))` → complement list of `addNegativeRanges` -/
+`(c16 neg (rs…))` → complement list of `addNegativeRanges`;
+`(c16 query <clsA> <clsB> (maxchars k…) (nranges n…) (enum 0|1) (oranges (id lo hi …)…) (names (id byte…)…) (letters r…))`
+→ `((A.sing b) … (B.sing b) … (AB.eq b) … (BA.eq b) …)`: every query function of Model/ClassQuery.lean on A, on B,
+on (A,B) and on (B,A) -/
 def handleC16 (args : List Sexp) : String :=
   match args with
   | mode :: rest =>
@@ -140,6 +220,23 @@ def handleC16 (args : List Sexp) : String :=
             | g :: gs => .minus f (chain g gs)
           toString (renderClass (Class.addCaseEquivalences cat (mkOrbit more) (chain f fs).copy))
         | _ => "(bad-args)"
+      | _ => "(bad-args)"
+    | some "query" =>
+      match rest with
+      | ca :: cb :: more =>
+        match parseClass ca, parseClass cb with
+        | some a, some b =>
+          let tbl := mkRangeTable more
+          let cat := rangeOracle tbl
+          let names := mkNames more
+          let letters := (((lookup "letters" more).map Sexp.list).bind (·.nats?)).getD []
+          let isLetter : Nat → Bool := fun r => letters.contains r
+          let mc := (((lookup "maxchars" more).map Sexp.list).bind (·.nats?)).getD []
+          let nr := (((lookup "nranges" more).map Sexp.list).bind (·.nats?)).getD []
+          let en := (((lookup "enum" more).map Sexp.list).bind (·.nats?)).getD [] == [1]
+          toString (Sexp.list (queryUnary "A" cat isLetter names mc nr a ++ queryUnary "B" cat isLetter names mc nr b ++
+            queryBinary "AB" cat en a b ++ queryBinary "BA" cat en b a))
+        | _, _ => "(bad-args)"
       | _ => "(bad-args)"
     | some "neg" =>
       match rest with
